@@ -1152,6 +1152,29 @@ def _lin_build(d, k, w):
         z = items[0][1][0]
         if len(z) == 2 and pw(z[0]) == 1 and _zero(z[1]):
             return rep((z[0],), w)               # -zext(c) = rep(c)
+    if len(items) == 1 and k == 0:
+        # splat by multiplication: x = [X (n bits) ++ 0...] times a constant whose set bits are at least n apart: the
+        # partial products X << q_j occupy disjoint bit ranges, nothing carries, the product is X copied to every q_j
+        # (LLVM's form of a byte / word broadcast: x * 0x0101.., x | x << 8)
+        z, cf = items[0][1]
+        cf &= _mask(w)
+        n = w
+        while n > 0 and len(z) > 1 and _zero(z[-1]):
+            n -= pw(z[-1])
+            z = z[:-1]
+        if 0 < n < w and cf:
+            qs = [q for q in range(w) if (cf >> q) & 1]
+            if len(qs) > 1 and all(b - a >= n for a, b in zip(qs, qs[1:])):
+                out, pos = [], 0
+                for q in qs:
+                    if q > pos:
+                        out.append(const(q - pos, 0))
+                    take = min(n, w - q)
+                    out.append(slice_(z, 0, take))
+                    pos = q + take
+                if pos < w:
+                    out.append(const(w - pos, 0))
+                return cat(*out)
     # common known-zero low bits: if the low m bits of every summand and of the constant are zero, nothing carries
     # into bit m and the sum is  [0 x m] ++ (sum of the parts shifted right by m)   (mod 2^(w-m))
     m = w
